@@ -1283,8 +1283,10 @@ def solve_ivp(fun, t_span, y0, method='RK45', t_eval=None, dense_output=False,
         fn = fun
         while isinstance(fn, DiffRHS):
             fn = fn.rhs
-        fn_args_kwargs = inspect.getfullargspec(fn)
-        constants = {key:value for key,value in zip(fn_args_kwargs[0][2:], args)}
+        # the parameters after (t, y), as seen by a caller: for a bound method or a callable object `self` is not one of them
+        fn_params = [name for name, param in inspect.signature(fn).parameters.items()
+                     if param.kind in (param.POSITIONAL_ONLY, param.POSITIONAL_OR_KEYWORD)]
+        constants = {key:value for key,value in zip(fn_params[2:], args)}
         
     max_step = options.get("max_step", np.inf)
     min_step = options.get("min_step", 0.0)
